@@ -123,6 +123,25 @@ Theorem C07_direct_torn_implies_closed : forall has_to ls s,
 Proof. exact direct_torn_closed_lemma. Qed.
 Print Assumptions C07_direct_torn_implies_closed.
 
+(* What exec can observe from writeContext - the interface a model of the connection (C01/C06) may use for its abstract
+   Write.  A request that has been given (n, e) over a connection honouring io.Writer is in exactly one of four situations:
+   (whole)   e = nil, n = len(frame), the whole frame is in the stream, contiguously;
+   (nothing) e <> nil, n = 0, no byte of the frame is on the wire now or ever;
+   (torn)    e <> nil, 0 < n < len(frame), exactly the first n bytes are on the wire, nothing is ever written on this
+             connection again by anybody, and exec closes the connection (must_close);
+   (whole, with an error) e <> nil, n = len(frame) > 0: the connection reported an error although it took everything; the whole
+             frame is in the stream and exec closes the connection. *)
+Theorem C07_direct_exec_view : forall has_to ls s t n e,
+  drun has_to d_init ls = Some s -> d_broken s = false -> result_of (d_thr s) t = Some (n, e) ->
+  let f := frame_of (d_thr s) t in
+  (e = None /\ n = length f /\ frame_present (frame_of (d_thr s)) t (d_wire s))
+  \/ (e <> None /\ n = 0 /\ forall ls2 s2, drun has_to s ls2 = Some s2 -> bytes_of t (d_wire s2) = [])
+  \/ (e <> None /\ 0 < n < length f /\ must_close (n, e) = true /\ bytes_of t (d_wire s) = firstn n f /\
+      forall ls2 s2, drun has_to s ls2 = Some s2 -> d_wire s2 = d_wire s)
+  \/ (e <> None /\ 0 < n /\ n = length f /\ must_close (n, e) = true /\ frame_present (frame_of (d_thr s)) t (d_wire s)).
+Proof. exact direct_exec_view_lemma. Qed.
+Print Assumptions C07_direct_exec_view.
+
 (* ------------------------------------------------------------------------------------------------------------ *)
 (* The coalescing writer, in every reachable state. *)
 
@@ -182,6 +201,19 @@ Theorem C07_coal_nothing_after_partial : forall has_to ls1 ls2 s1 s2,
   crun has_to s1 ls2 = Some s2 -> c_wire s2 = c_wire s1.
 Proof. exact coal_nothing_after_partial_lemma. Qed.
 Print Assumptions C07_coal_nothing_after_partial.
+
+(* The same interface for the coalescing writer (there the last case never arises, but the statement is the same so that
+   a connection model need not know which writer is in use). *)
+Theorem C07_coal_exec_view : forall has_to ls s t n e,
+  crun has_to c_init ls = Some s -> c_broken s = false -> result_of (c_thr s) t = Some (n, e) ->
+  let f := frame_of (c_thr s) t in
+  (e = None /\ n = length f /\ frame_present (frame_of (c_thr s)) t (c_wire s))
+  \/ (e <> None /\ n = 0 /\ forall ls2 s2, crun has_to s ls2 = Some s2 -> bytes_of t (c_wire s2) = [])
+  \/ (e <> None /\ 0 < n < length f /\ must_close (n, e) = true /\ bytes_of t (c_wire s) = firstn n f /\
+      forall ls2 s2, crun has_to s ls2 = Some s2 -> c_wire s2 = c_wire s)
+  \/ (e <> None /\ 0 < n /\ n = length f /\ must_close (n, e) = true /\ frame_present (frame_of (c_thr s)) t (c_wire s)).
+Proof. exact coal_exec_view_lemma. Qed.
+Print Assumptions C07_coal_exec_view.
 
 Theorem C07_coal_nothing_after_close : forall has_to ls s s',
   crun has_to s ls = Some s' -> c_connclosed s = true -> c_connclosed s' = true /\ c_wire s' = c_wire s.
